@@ -492,6 +492,17 @@ def run_history(rec, tap, rng, cid):
                      ("prep", copy.deepcopy(pp), copy.deepcopy(ob)),
                      ("fit", {}), ("fit0",)]
         rec.event("scripted prefix: direct preprocessing edit, fit, refit")
+    elif rng.random() < .12:
+        # plateau search, then only the lower range bound is changed (a
+        # documented don't-care) - including to a value above the upper one
+        b = float(rng.choice([1e-6, 2e-6, 5e-7]))
+        a = float(rng.choice([5e-6, 3e-6, -1e-6, -3e-6, 1.5e-6]))
+        second = ("fit", {"range_x": [a, b]}) if rng.random() < .5 else \
+            ("edit", {"range_x": [a, b]})
+        queue = [("fit", {"optimal_fit_edelta": True, "range_x": [0, b]}),
+                 second, ("fit0",), ("rate",), ("fit0",)]
+        rec.event("scripted prefix: plateau search, lower range bound "
+                  "changed")
     for step in range(nops):
         op = queue.pop(0) if queue else gen_op(rng)
         before = snapshot(idnt)
